@@ -7,6 +7,15 @@ ROOT = os.path.dirname(os.path.dirname(os.path.abspath(__file__)))
 ALL = [f"C{i:02d}" for i in range(1, 21)]
 
 CLAIMED = {
+    "C14": dict(
+        text="Bounded symbolic execution (CrossHair/z3) of the real dispatcher, abor, worker decorator and transfer workers with ABOR arriving at a symbolic event-loop iteration after the "
+             "150 mark (data connection made, withheld, or made late): transcript after 150 is exactly [completion, 226] / [426, 226] / [425, 226], no teardown, data connection closed, "
+             "only a prefix delivered or stored, follow-up transfer / PWD / second ABOR succeed.",
+        note="Trusted: CrossHair/z3, VLoop iteration hook, scripted channels. Each arrival point is a separate path (the solver certifies that none in the bound is skipped). "
+             "Outside: ABOR pipelined before the 150 mark, files > 7 bytes, concurrent transfers on one session.",
+        technique="bounded symbolic execution of the real Python code (CrossHair 0.0.110 + z3): symbolic arrival point (loop iteration) of ABOR",
+        design_ref="DESIGN.md section 3 C14",
+    ),
     "C13": dict(
         text="Bounded symbolic execution (CrossHair/z3) of every storage-touching command through the real dispatcher on a spying MemoryPathIO whose k-th backend call (k symbolic) "
              "raises OSError through the real universal_exception wrapper: exactly one final reply 451 and no success reply, a detached data connection is closed, no file left open, "
